@@ -89,4 +89,36 @@ theorem fdaeLoop_spec (tend uround slack dt : ℚ) (hdt : 0 < dt) (hs : 1 ≤ sl
           | nil => simp [hL] at hl
           | cons a l => rw [hL] at hl; simpa [List.getLast?_cons_cons] using hl
 
+theorem ratO_ofNat (n : Nat) : ratO.ofNat n = (n : ℚ) := rfl
+
+/-- in exact arithmetic the grid the code computes now (`t0 + k·h`, absolute end-test allowance `slackAbs·h`) is the grid of `fdaeLoop`
+with slack `1 + slackAbs` -/
+theorem fdaeLoopK_eq (t0 tend h uround sa : ℚ) (fuel : Nat) : ∀ k : Nat,
+    fdaeLoopK ratO (fun _ => 0) t0 tend h uround sa fuel k (t0 + (k : ℚ) * h) =
+      fdaeLoop ratO tend uround (1 + sa) fuel (t0 + (k : ℚ) * h) h := by
+  induction fuel with
+  | zero => intro k; simp [fdaeLoopK, fdaeLoop]
+  | succ n ih =>
+    intro k
+    rw [fdaeLoop_succ]
+    have hadd : ∀ a b : ℚ, ratO.add a b = a + b := fun _ _ => rfl
+    have hsub : ∀ a b : ℚ, ratO.sub a b = a - b := fun _ _ => rfl
+    have hmul : ∀ a b : ℚ, ratO.mul a b = a * b := fun _ _ => rfl
+    have hnext : t0 + ((k + 1 : ℕ) : ℚ) * h = t0 + (k : ℚ) * h + h := by push_cast; ring
+    have hiff : (tend - (sa * h + 4 * 0) ≤ t0 + (k : ℚ) * h + h) ↔ (tend ≤ t0 + (k : ℚ) * h + h * (1 + sa)) := by
+      constructor <;> intro hh <;> nlinarith
+    simp only [fdaeLoopK, ratO_le, ratO_lt, ratO_abs, hadd, hsub, hmul, ratO_ofNat]
+    have hk : t0 + ((k : ℚ) + 1) * h = t0 + (k : ℚ) * h + h := by ring
+    have hc : (tend ≤ t0 + (k : ℚ) * h + h + sa * h) ↔ (tend ≤ t0 + (k : ℚ) * h + h * (1 + sa)) := by
+      constructor <;> intro hh <;> nlinarith
+    by_cases h1 : tend ≤ t0 + (k : ℚ) * h + h * (1 + sa)
+    · have h1s := hc.mpr h1
+      simp [h1, h1s]
+    · have h1s : ¬ (tend ≤ t0 + (k : ℚ) * h + h + sa * h) := fun hh => h1 (hc.mp hh)
+      have ih' := ih (k + 1)
+      rw [hnext] at ih'
+      by_cases h2 : |tend - (t0 + (k : ℚ) * h + h)| < uround
+      · simp [h1, h1s, hk, h2]
+      · simp [h1, h1s, hk, h2, ih']
+
 end Solverz
